@@ -177,7 +177,8 @@ def prun(d, props=None, workers='4'):
 
 
 def readme():
-    rows = []
+    rows, brows = [], []
+    stat = dict(detected=0, concrete=0, undecided=0, missed=0, total=0)
     for n in sorted(os.listdir(SEEDED)):
         mp = os.path.join(SEEDED, n, 'meta.json')
         if not os.path.exists(mp):
@@ -186,12 +187,32 @@ def readme():
         det = []
         for p, c in m.get('checks', {}).items():
             fs = sorted({r['function'] for r in c.get('replays', []) if r.get('function')})
-            det.append(f"{p}: {'DETECTED' if c['detected'] else 'exit ' + str(c['exit'])}" + (f" ({', '.join(fs[:3])}; {'concrete input replayed' if any(r['concrete'] for r in c['replays']) else 'no concrete input'})" if c['detected'] else ''))
+            conc = any(r['concrete'] for r in c.get('replays', []))
+            if c['exit'] == 1:
+                d_ = f"{p}: DETECTED ({', '.join(fs[:3])}; {'concrete input replayed' if conc else 'failed obligation, no concrete input'})"
+            elif c['exit'] == 2:
+                d_ = f"{p}: undecided (exit 2): " + '; '.join(o.strip()[:120] for o in c.get('other', []) if 'UNDECIDED' in o)[:260]
+            else:
+                d_ = f"{p}: no alarm (exit 0)"
+            det.append(d_)
+            if not m.get('benign') and p == m['property']:
+                stat['total'] += 1
+                stat['detected'] += c['exit'] == 1
+                stat['concrete'] += (c['exit'] == 1 and conc)
+                stat['undecided'] += c['exit'] == 2
+                stat['missed'] += c['exit'] == 0
         trig = re.sub(r'\s+', ' ', m.get('needs_to_manifest', ''))[:260]
-        rows.append(f"| {n} | {m['property']} | {trig} | {'; '.join(det) or 'not run'} |")
-    txt = '# Seeded changes\n\nEach directory holds `patch.diff` (applies to /repo with `git -C /repo apply`), the demonstration `demo.rs` (an integration test that fails with the change and passes without it), `meta.json` (what was confirmed and how, and what the checks reported) and the author\'s notes. None of these changes is ever committed to /repo.\n\n| change | breaks | needs in order to manifest | checks |\n|---|---|---|---|\n' + '\n'.join(rows) + '\n'
+        (brows if m.get('benign') else rows).append(f"| {n} | {m['property']} | {trig} | {'; '.join(det) or 'not run'} |")
+    txt = ('# Seeded changes\n\nEach directory holds `patch.diff` (applies to /repo with `git -C /repo apply`), the demonstration `demo.rs` (an integration test that '
+           'fails with the change and passes without it), `meta.json` (what was confirmed and how, and what the checks reported) and the author\'s notes. '
+           'None of these changes is ever committed to /repo. The changes were written by independent sub-agents that saw only the property text and a scratch worktree.\n\n'
+           f"Summary of the last evaluation (quick tier): {stat['detected']} of {stat['total']} property-breaking changes reported as VIOLATION "
+           f"({stat['concrete']} with a concrete failing input replayed on the real code), {stat['undecided']} undecided (exit 2), {stat['missed']} not noticed (exit 0).\n\n"
+           '## Property-breaking changes\n\n| change | breaks | needs in order to manifest | checks |\n|---|---|---|---|\n' + '\n'.join(rows) + '\n\n'
+           '## Behaviour-preserving refactorings (the property still holds: a VIOLATION here would be a false alarm)\n\n'
+           '| change | property exercised | what it is | checks |\n|---|---|---|---|\n' + '\n'.join(brows) + '\n')
     open(os.path.join(SEEDED, 'README.md'), 'w').write(txt)
-    print(txt)
+    print(txt[:1500])
 
 
 if __name__ == '__main__':
